@@ -1,7 +1,7 @@
 EXPLANATION = ('Byte primitives Memory::Copy / Memory::SetToZero enforced for every size with exact-size non-overlapping buffers: the destination '
                'equals the source (resp. zero) at the arbitrary ghost position, only [to, to+size) is written, only [from, from+size) is read.')
 TRUSTED = []
-ASSUMPTIONS = ['source and destination do not overlap (is_fresh)']
+ASSUMPTIONS = ['source and destination of Memory::Copy do not overlap; the contract is enforced for separate objects and is ASSUMED (not enforced) for disjoint ranges of one object, which only the non-growing self-append uses']
 UNIT = dict(driver='memory.cpp')
 UNIT_SSE2 = dict(driver='memory.cpp', defines=['QENTEM_SSE2=1'])
 GH = [('unsigned int', 'g_k')]
@@ -148,9 +148,8 @@ def ss_jobs():
     W = wf_req(allocated=True)
     FR = ['__CPROVER_object_whole(self)', '__CPROVER_object_whole(self->storage_)']
     SELF = SS + '_op_add_assign__const_StringStream__char_r'
-    UNFINISHED = []  # self-append does not finish (out of memory with the aliasing precondition); kept for the record, not run
-    UNFINISHED.append(ss_job('self-append', 'operator+=(const Qentem::StringStream<char> &)', SELF,
-                      dict(requires=W + ['stream == self', OLDREQ, 'self->length_ <= 0x1000000u', 'g_c == (g_k < self->length_ ? g_k : g_k - self->length_)'],
+    out.append(ss_job('self-append', 'operator+=(const Qentem::StringStream<char> &)', SELF,
+                      dict(harness_alias={'stream': 'self'}, obj_buffers=[('o_self.storage_', 'o_self.capacity_', 'char')], requires=W + ['stream == self', OLDREQ, 'self->length_ <= 0x1000000u', 'g_c == (g_k < self->length_ ? g_k : g_k - self->length_)'],
                            ensures=wf_ens() + ['self->length_ == 2 * %s' % O_LEN, KEEP,
                                                '(g_k >= %s && g_k < self->length_) ==> self->storage_[g_k] == self->storage_[g_k - %s]' % (O_LEN, O_LEN)],
                            assigns=FR, frees=['self->storage_']),
@@ -191,3 +190,58 @@ _jobs_c14 = jobs
 
 def jobs(tier):
     return _jobs_c14(tier) + ss_jobs()
+
+
+ST = 'String__char'
+QST = 'Qentem::String<char>'
+
+
+def st_job(name, qfn, fn, spec, clause, **kw):
+    j = dict(name='String<char>.%s' % name, unit=LC.UNIT, fn=fn, roots=[QST + '::' + qfn], specs={fn: spec, COPY: copy_callee()}, replace=[COPY],
+             ghosts=LC.GH, solver='cadical', timeout=600, objbits=10, must_have=['postcondition'], clause=clause, cex_K=4)
+    if kw.pop('nocopy', False):
+        j['specs'] = {fn: spec}
+        j['replace'] = []
+    j.update(kw)
+    return j
+
+
+def st_wf(alloc=True, s='self'):
+    if alloc:
+        return ['__CPROVER_is_fresh(%s, sizeof(*%s))' % (s, s), '%s->length_ <= 0x1000000u' % s,
+                '__CPROVER_is_fresh(%s->storage_, (__CPROVER_size_t)%s->length_ + 1)' % (s, s), '%s->storage_[%s->length_] == 0' % (s, s)]
+    return ['__CPROVER_is_fresh(%s, sizeof(*%s))' % (s, s), '%s->storage_ == 0 && %s->length_ == 0' % (s, s)]
+
+
+def st_ens(s='self'):
+    return ['%s->storage_ != 0 ==> (__CPROVER_w_ok(%s->storage_, (__CPROVER_size_t)%s->length_ + 1) && %s->storage_[%s->length_] == 0)' % (s, s, s, s, s),
+            '%s->storage_ == 0 ==> %s->length_ == 0' % (s, s)]
+
+
+def string_jobs():
+    out = []
+    O_LEN = '__CPROVER_old(self->length_)'
+    for alloc, tag in ((True, 'allocated'), (False, 'empty')):
+        FR = ['__CPROVER_object_whole(self)'] + (['__CPROVER_object_whole(self->storage_)'] if alloc else [])
+        FREES = ['self->storage_'] if alloc else []
+        keep = [KEEP] if alloc else []
+        oldreq = [OLDREQ] if alloc else []
+        out.append(st_job('Write.' + tag, 'Write', ST + '_Write',
+                          dict(buffers=[('str', 'len')], requires=st_wf(alloc) + ['len <= 0x1000000u', 'len != 0'] + oldreq + ['g_c == (g_k < self->length_ ? g_k : g_k - self->length_)'],
+                               ensures=st_ens() + ['self->length_ == %s + len' % O_LEN] + keep +
+                               ['(g_k >= %s && g_k < self->length_) ==> self->storage_[g_k] == str[g_k - %s]' % (O_LEN, O_LEN)],
+                               assigns=FR, frees=FREES),
+                          'String append of a range: new length, NUL terminated, earlier characters undisturbed, appended characters equal the source'))
+    W = st_wf(True)
+    out.append(st_job('StepBack', 'StepBack', ST + '_StepBack',
+                      dict(requires=W + [OLDREQ], ensures=st_ens() + ['self->length_ == (len <= %s ? %s - len : %s)' % (O_LEN, O_LEN, O_LEN), 'g_k < self->length_ ==> self->storage_[g_k] == g_old'],
+                           assigns=['self->length_', '__CPROVER_object_whole(self->storage_)']),
+                      'String step-back drops exactly len trailing characters and re-terminates', nocopy=True))
+    return out
+
+
+_jobs_c14b = jobs
+
+
+def jobs(tier):
+    return _jobs_c14b(tier) + string_jobs()
